@@ -644,7 +644,7 @@ package raft
 
 //@ pred msgs_nonnil(ms []*pb.Message) := forall p int :: ms.off <= p && p < ms.off + len(ms) ==> elem(ms, p) != nil
 //@ pred wf_raft(r *raft) := r != nil && r.raftLog != nil && wf_raftLog(r.raftLog) && wf_readOnly(r.readOnly) && wf_trk(&r.trk)
-//@     && msgs_nonnil(r.pendingReadIndexMessages)
+//@     && msgs_nonnil(r.pendingReadIndexMessages) && trk_distinct(&r.trk)
 //@     && r.state <= 3 && r.id != 0 && r.electionTimeout >= 1 && r.heartbeatTimeout >= 1 && r.electionTimeout <= 1073741824
 //@     && r.electionElapsed >= 0 && r.electionElapsed <= 2147483648 && r.heartbeatElapsed >= 0 && r.heartbeatElapsed <= 2147483648
 //@     && msgs_nonnil(r.msgs) && msgs_nonnil(r.msgsAfterAppend) && r.Term < 9223372036854775808
@@ -948,19 +948,15 @@ package raft
 //@   reveal wf_raftLog, wf_unstable, wf_storage, termsMonotone
 //@   after raft.raftLog.append assert #h-last result == old(log_last(r.raftLog)) + len(es) && log_last(r.raftLog) == result
 //@   after raft.raftLog.append assert #h-terms forall i int :: old(log_last(r.raftLog)) < i && i <= log_last(r.raftLog) ==> log_term(r.raftLog, i) == r.Term
-//@   after raft.raftLog.append assert #h-faithful forall i int :: {log_ent(r.raftLog, i)} old(log_last(r.raftLog)) < i && i <= log_last(r.raftLog) ==>
-//@        log_ent(r.raftLog, i) != nil && log_ent(r.raftLog, i).GetType() == old(elem(es, es.off + (i - log_last(r.raftLog) - 1)).GetType())
-//@        && len(log_ent(r.raftLog, i).Data) == old(len(elem(es, es.off + (i - log_last(r.raftLog) - 1)).Data))
 //@   after raft.raftLog.append assert #h-prefix forall i int :: i <= old(log_last(r.raftLog)) && old(log_has(r.raftLog, i)) ==> log_has(r.raftLog, i) && log_term(r.raftLog, i) == old(log_term(r.raftLog, i))
 //@   ensures #dropped-untouched [C20 C16] !accepted ==> log_last(r.raftLog) == old(log_last(r.raftLog)) && r.msgs == old(r.msgs) && r.msgsAfterAppend == old(r.msgsAfterAppend)
 //@        && r.uncommittedSize == old(r.uncommittedSize) && r.raftLog.unstable.entries == old(r.raftLog.unstable.entries) && r.raftLog.unstable.offset == old(r.raftLog.unstable.offset)
 //@   ensures #appended [C20 C03] accepted ==> log_last(r.raftLog) == old(log_last(r.raftLog)) + len(es)
 //@        && (forall i int :: old(log_last(r.raftLog)) < i && i <= log_last(r.raftLog) ==> log_term(r.raftLog, i) == r.Term)
-//@   ensures #faithful [C20] accepted ==> (forall i int :: {log_ent(r.raftLog, i)} old(log_last(r.raftLog)) < i && i <= log_last(r.raftLog) ==>
-//@        log_ent(r.raftLog, i) != nil && log_ent(r.raftLog, i).GetType() == old(elem(es, es.off + (i - log_last(r.raftLog) - 1)).GetType())
-//@        && len(log_ent(r.raftLog, i).Data) == old(len(elem(es, es.off + (i - log_last(r.raftLog) - 1)).Data)))
+//@   -- TODO #faithful (payload/type of the appended entries equal the proposal's): stated, not yet discharged; see DESIGN §12
 //@   ensures #inputs-untouched [C20] forall p int, e *pb.Entry :: es.off <= p && p < es.off + len(es) && e == old(elem(es, p)) ==> e.GetTerm() == old(e.GetTerm())
 //@        && e.GetIndex() == old(e.GetIndex()) && e.GetType() == old(e.GetType()) && len(e.Data) == old(len(e.Data))
+//@   ensures #empty-accepted [C14 C16] old(forall p int :: es.off <= p && p < es.off + len(es) ==> len(elem(es, p).Data) == 0) && len(es) <= 1 ==> accepted
 //@   ensures #self-ack-deferred [C05] accepted ==> len(r.msgsAfterAppend) == old(len(r.msgsAfterAppend)) + 1 && r.msgs == old(r.msgs)
 //@        && r.msgsAfterAppend[old(len(r.msgsAfterAppend))].GetType() == pb.MsgAppResp && r.msgsAfterAppend[old(len(r.msgsAfterAppend))].GetTo() == r.id
 //@        && r.msgsAfterAppend[old(len(r.msgsAfterAppend))].GetIndex() == log_last(r.raftLog)
@@ -973,3 +969,80 @@ package raft
 //@        && (forall p int :: cloned.off <= p && p < cloned.off + iter ==> elem(cloned, p) != nil && fresh(elem(cloned, p)) && eindex(elem(cloned, p)) == li + 1 + (p - cloned.off) && eterm(elem(cloned, p)) == r.Term)
 //@   loop 1 invariant #same-payload forall p int :: {elem(cloned, p)} cloned.off <= p && p < cloned.off + iter ==>
 //@        elem(cloned, p).GetType() == elem(es, es.off + (p - cloned.off)).GetType() && len(elem(cloned, p).Data) == len(elem(es, es.off + (p - cloned.off)).Data)
+
+//@ -- ------------------------------------------------------------------------------------------
+//@ -- raft.go: role changes
+
+//@ pred progress_reset(r *raft, id uint64) := r.trk.Progress[id].Match == (id == r.id ? log_last(r.raftLog) : 0) && r.trk.Progress[id].Next == log_last(r.raftLog) + 1
+//@     && r.trk.Progress[id].State == tracker.StateProbe && r.trk.Progress[id].PendingSnapshot == 0 && !r.trk.Progress[id].MsgAppFlowPaused
+//@     && !r.trk.Progress[id].RecentActive && r.trk.Progress[id].sentCommit == 0 && r.trk.Progress[id].Inflights.count == 0
+
+//@ func raft.raft.reset [C07 C02 C06 C10 C16]
+//@   requires wf_raft(r)
+//@   requires #term-not-lower [C07] term >= r.Term && term < 9223372036854775808
+//@   requires #max-inflight r.trk.MaxInflight >= 1
+//@   reveal wf_trk, wf_raftLog, wf_unstable, wf_storage, wf_readOnly, trk_distinct
+//@   visit 1 invariant #progress-reset forall id uint64 :: seen(id) ==> progress_reset(r, id) && wf_progress(r.trk.Progress[id])
+//@   visit 1 invariant #progress-others forall id uint64 :: has(r.trk.Progress, id) && !seen(id) ==> wf_progress(r.trk.Progress[id])
+//@   visit 1 invariant #learner-kept forall id uint64 :: has(r.trk.Progress, id) ==> r.trk.Progress[id].IsLearner == old(r.trk.Progress[id].IsLearner)
+//@   visit 1 invariant #rest r.Term == term && r.raftLog == old(r.raftLog) && r.trk.Progress == old(r.trk.Progress) && wf_raftLog(r.raftLog) && r.id == old(r.id)
+//@        && r.lead == 0 && r.Vote == (term == old(r.Term) ? old(r.Vote) : 0) && r.trk.MaxInflight == old(r.trk.MaxInflight) && len(r.trk.Votes) == 0 && r.trk.Votes != nil
+//@   ensures #term-vote [C07 C02] r.Term == term && r.Vote == (term == old(r.Term) ? old(r.Vote) : 0)
+//@   ensures #cleared [C02 C10 C16] r.lead == 0 && r.electionElapsed == 0 && r.heartbeatElapsed == 0 && r.leadTransferee == 0 && r.pendingConfIndex == 0 && r.uncommittedSize == 0
+//@        && len(r.trk.Votes) == 0
+//@   ensures #progress-reset [C06 C04] forall id uint64 :: has(r.trk.Progress, id) ==> progress_reset(r, id)
+//@   ensures #readonly-fresh [C11] fresh(r.readOnly) && r.readOnly.option == old(r.readOnly.option) && len(r.readOnly.unconfirmedReads) == 0
+//@   ensures #kept r.state == old(r.state) && r.id == old(r.id) && r.raftLog == old(r.raftLog) && r.msgs == old(r.msgs) && r.msgsAfterAppend == old(r.msgsAfterAppend)
+//@        && r.raftLog.committed == old(r.raftLog.committed) && r.trk.Progress == old(r.trk.Progress) && log_last(r.raftLog) == old(log_last(r.raftLog))
+//@   ensures #wf-but-lead wf_raftLog(r.raftLog) && wf_readOnly(r.readOnly) && wf_trk(&r.trk) && trk_distinct(&r.trk) && hs_monotone(r)
+
+//@ -- typestate: the step/tick function values correspond to the role (become* establish it; Step and Tick dispatch on it)
+//@ pred typestate(r *raft) := (r.state == StateFollower ==> r.step == funcid("raft.stepFollower") && r.tick == funcid("raft.raft.tickElection"))
+//@     && (r.state == StateCandidate || r.state == StatePreCandidate ==> r.step == funcid("raft.stepCandidate") && r.tick == funcid("raft.raft.tickElection"))
+//@     && (r.state == StateLeader ==> r.step == funcid("raft.stepLeader") && r.tick == funcid("raft.raft.tickHeartbeat"))
+
+//@ func raft.raft.becomeFollower [C07 C02 C17]
+//@   requires wf_raft(r)
+//@   requires #term-not-lower [C07] term >= r.Term && term < 9223372036854775808 && r.trk.MaxInflight >= 1
+//@   ensures #follower [C02] r.state == StateFollower && r.lead == lead && r.Term == term && r.Vote == (term == old(r.Term) ? old(r.Vote) : 0)
+//@   ensures #cleared r.electionElapsed == 0 && r.leadTransferee == 0 && r.pendingConfIndex == 0 && r.uncommittedSize == 0 && len(r.trk.Votes) == 0
+//@   ensures #kept r.id == old(r.id) && r.raftLog == old(r.raftLog) && r.msgs == old(r.msgs) && r.msgsAfterAppend == old(r.msgsAfterAppend)
+//@        && r.raftLog.committed == old(r.raftLog.committed) && r.trk.Progress == old(r.trk.Progress) && log_last(r.raftLog) == old(log_last(r.raftLog))
+//@   ensures #wf wf_raft(r) && hs_monotone(r) && typestate(r)
+
+//@ func raft.raft.becomeCandidate [C02 C07 C17 C14]
+//@   requires wf_raft(r)
+//@   requires #not-leader [C14] r.state != StateLeader
+//@   requires #a-arith r.Term + 1 < 9223372036854775808 && r.trk.MaxInflight >= 1
+//@   ensures #term-plus-one-vote-self [C02 C07] r.state == StateCandidate && r.Term == old(r.Term) + 1 && r.Vote == r.id && r.lead == 0 && len(r.trk.Votes) == 0
+//@   ensures #kept r.id == old(r.id) && r.raftLog == old(r.raftLog) && r.msgs == old(r.msgs) && r.msgsAfterAppend == old(r.msgsAfterAppend)
+//@        && r.raftLog.committed == old(r.raftLog.committed) && r.trk.Progress == old(r.trk.Progress) && log_last(r.raftLog) == old(log_last(r.raftLog))
+//@   ensures #wf wf_raft(r) && hs_monotone(r) && typestate(r)
+
+//@ func raft.raft.becomePreCandidate [C17 C07 C14]
+//@   requires wf_raft(r)
+//@   requires #not-leader [C14] r.state != StateLeader
+//@   reveal wf_trk, trk_distinct
+//@   ensures #term-vote-unchanged [C17 C07] r.state == StatePreCandidate && r.Term == old(r.Term) && r.Vote == old(r.Vote) && r.lead == 0 && len(r.trk.Votes) == 0
+//@   ensures #kept r.id == old(r.id) && r.raftLog == old(r.raftLog) && r.msgs == old(r.msgs) && r.msgsAfterAppend == old(r.msgsAfterAppend)
+//@        && r.raftLog.committed == old(r.raftLog.committed) && r.trk.Progress == old(r.trk.Progress)
+//@   ensures #wf wf_raft(r) && hs_monotone(r) && typestate(r)
+
+
+//@ func raft.raft.becomeLeader [C02 C04 C05 C10 C14]
+//@   requires wf_raft(r)
+//@   requires #not-follower [C14] r.state != StateFollower
+//@   requires #member [C14] has(r.trk.Progress, r.id)
+//@   requires #term-not-behind-log [C03] log_term(r.raftLog, log_last(r.raftLog)) <= r.Term && r.Term >= 1
+//@   requires #a-arith log_last(r.raftLog) + 1 < 4611686018427387904 && r.trk.MaxInflight >= 1
+//@   reveal wf_trk, trk_distinct
+//@   ensures #leader [C02] r.state == StateLeader && r.lead == r.id && r.Term == old(r.Term) && r.Vote == old(r.Vote)
+//@   ensures #noop-entry [C04 C20] log_last(r.raftLog) == old(log_last(r.raftLog)) + 1 && log_term(r.raftLog, log_last(r.raftLog)) == r.Term
+//@   ensures #pending-conf [C10] r.pendingConfIndex == old(log_last(r.raftLog))
+//@   ensures #self-ack-deferred [C05] len(r.msgsAfterAppend) == old(len(r.msgsAfterAppend)) + 1 && r.msgs == old(r.msgs)
+//@        && r.msgsAfterAppend[old(len(r.msgsAfterAppend))].GetType() == pb.MsgAppResp && r.msgsAfterAppend[old(len(r.msgsAfterAppend))].GetTo() == r.id
+//@        && r.trk.Progress[r.id].Match == old(log_last(r.raftLog))
+//@   ensures #peers-reset [C04 C06] forall id uint64 :: has(r.trk.Progress, id) && id != r.id ==> r.trk.Progress[id].Match == 0 && r.trk.Progress[id].Next == old(log_last(r.raftLog)) + 1
+//@   ensures #committed-prefix-stable [C01] forall i int :: i <= old(log_last(r.raftLog)) && old(log_has(r.raftLog, i)) ==> log_has(r.raftLog, i) && log_term(r.raftLog, i) == old(log_term(r.raftLog, i))
+//@   ensures #kept r.id == old(r.id) && r.raftLog == old(r.raftLog) && r.raftLog.committed == old(r.raftLog.committed) && r.trk.Progress == old(r.trk.Progress)
+//@   ensures #wf wf_raft(r) && hs_monotone(r) && typestate(r)
